@@ -41,10 +41,10 @@ ASSUMPTIONS = [
 BOUNDS = {
     "quick": dict(value_kinds=6, scalar_flag_alphabet=4, eager_triples=64, jit_static_patterns=9, vector_lengths=[2, 3],
                   vmap_triples="all 64 + all 512", vectorized_eager="n=2: 16 pairs x 2 thirds; n=3: 64 pairs x 1 third",
-                  vectorized_jit="all 64 + all 512", ops=21),
+                  vectorized_jit="all 64 + all 512", ops="19 + __getitem__ paths"),
     "thorough": dict(value_kinds=6, scalar_flag_alphabet=4, eager_triples=64, jit_static_patterns=27, vector_lengths=[2, 3],
                      vmap_triples="all 64 + all 512", vectorized_eager="all 64 + all 512",
-                     vectorized_jit="all 64 + all 512", ops=21),
+                     vectorized_jit="all 64 + all 512", ops="19 + __getitem__ paths"),
 }
 JOBS = {"quick": 6, "thorough": 12}
 
@@ -262,12 +262,18 @@ def observe(r, n):
 class Checker:
     def __init__(self, ctx, kind, mode, n):
         self.ctx, self.kind, self.mode, self.n = ctx, kind, mode, n
+        self.reported = set()
         # vectorized masks whose leaves have more axes than the flag get their own class (prefix-matchable)
         trailing = bool(n and TRAILING[kind] and mode.startswith("vectorized"))
         self.input_class = ("leaf_rank>flag_rank:" if trailing else "") + mode
 
     def fail(self, op, symptom, detail):
         name = op.split(":")[0]
+        sig = (name, symptom)
+        if sig in self.reported:  # one written-out failure per signature and case (Ctx keeps at most 40)
+            self.ctx.note("repeated_failures_same_signature")
+            return
+        self.reported.add(sig)
         self.ctx.fail(COMPONENT[name], name, self.input_class, symptom, dict(kind=self.kind, **detail))
 
     def compare(self, flags_desc, fvecs, vals, dval, out, errs, paths, nontrivial_base):
